@@ -46,6 +46,9 @@ pub enum Prog {
     /// the consumer half shared by two threads: one polls is_real_file_ready (with yields), one
     /// waits in len(); both must come back once the producer is done
     TwoConsumers,
+    /// the producer fails (panics) after its last write, so its writer half is dropped while the
+    /// thread unwinds: the consumer still gets the bytes written until then and is not left waiting
+    PanickingProducer,
 }
 
 #[derive(Clone, Debug, Serialize, Deserialize)]
@@ -203,6 +206,27 @@ fn one_execution(s: &Scen) {
             record_outcome(&d1.calls);
             h.join().unwrap();
         }
+        Prog::PanickingProducer => {
+            let (mut buf, writer) = TempFileBuffer::<Dest>::new(s.inmemory);
+            let c = chunks.clone();
+            let h = loom::thread::spawn(move || {
+                let prev = std::panic::take_hook();
+                std::panic::set_hook(Box::new(|_| {}));
+                let _ = std::panic::catch_unwind(std::panic::AssertUnwindSafe(move || {
+                    let mut w = writer;
+                    for ch in &c {
+                        w.write_all(ch).unwrap();
+                    }
+                    panic!("the producer fails after its last write");
+                }));
+                std::panic::set_hook(prev);
+            });
+            buf.switch(Dest::new(s.short_dest));
+            let d = buf.await_real_file();
+            assert_eq!(d.data, all, "panicking producer: destination bytes differ from the bytes written before the failure");
+            record_outcome(&d.calls);
+            h.join().unwrap();
+        }
         Prog::TwoConsumers => {
             let (buf, writer) = TempFileBuffer::<Dest>::new(s.inmemory);
             let h = spawn_producer(writer, chunks.clone(), s.flush_after, s.bufwriter);
@@ -295,7 +319,7 @@ fn one_execution(s: &Scen) {
                     assert_eq!(len, all.len() as u64, "len() = {} but {} bytes were written", len, all.len());
                     record_outcome(&[len as usize]);
                 }
-                Prog::Nested { .. } | Prog::NestedSwitch { .. } | Prog::Successive { .. } | Prog::TwoConsumers => unreachable!(),
+                Prog::Nested { .. } | Prog::NestedSwitch { .. } | Prog::Successive { .. } | Prog::TwoConsumers | Prog::PanickingProducer => unreachable!(),
             }
             h.join().unwrap();
         }
@@ -380,6 +404,10 @@ impl Check for C12 {
                         }
                     }
                 }
+            }
+            // a producer that fails after its last write
+            for h in hist.iter().filter(|h| h.len() <= 2) {
+                v.push(Scen { writes: h.clone(), flush_after: None, inmemory, prog: Prog::PanickingProducer, bufwriter: false, preemption_bound: None, short_dest: false, interrupt_dest: false });
             }
             // two threads on the consumer half
             for h in hist.iter().filter(|h| h.len() <= 2) {
